@@ -53,6 +53,20 @@ def purePow : List String → Option String
       pure (match Pow.basePlasmaChecked isRecv mc dlen with
         | some b => s!"ok {b}"
         | none => "too-big")
+  | ["plasma-method", regime, name] => do
+      -- cost of a call of contract.Method under a spork regime, by the REVIEWED kind of the method (Model/Pow.lean)
+      let regime ← regime.toNat?
+      pure (match Pow.reviewedCost regime name with
+        | some c => s!"ok {c}"
+        | none => "unreviewed")
+  | ["plasma-call", regime, name, total] => do
+      -- a call of contract.Method carrying `total` plasma the account owns: refused for too little total plasma?
+      let regime ← regime.toNat?
+      let total ← total.toNat?
+      pure (match Pow.methodCallPaid regime name total with
+        | some true => "paid"
+        | some false => "not-enough-total"
+        | none => "unreviewed")
   | ["plasma-diff", p] => do
       let p ← p.toNat?
       match Pow.difficultyForPlasma p with
